@@ -11,6 +11,18 @@ import (
 	"github.com/protobom/protobom/pkg/sbom"
 )
 
+// RenderSafe is RenderWith for workload generation: a serializer that fails or panics on a
+// workload document must not take the generator down (the checks that own that behaviour report
+// it); the caller falls back to fixed bytes.
+func RenderSafe(format string, d *sbom.Document, indent int) (b []byte, err error) {
+	defer func() {
+		if p := recover(); p != nil {
+			b, err = nil, fmt.Errorf("serializer panicked: %v", p)
+		}
+	}()
+	return RenderWith(format, d, indent)
+}
+
 // RenderWith serialises d with a fresh built-in driver object (the
 // reader/writer/formats packages are not touched).
 func RenderWith(format string, d *sbom.Document, indent int) ([]byte, error) {
